@@ -36,6 +36,10 @@ def run(ctx):
     r177(ctx, ut)
     r178(ctx, ut)
     r179(ctx, ut)
+    from ..statrules import shared_class_state
+    shared_class_state(ctx, 'R17.10', sorted(c for c, ci in ctx.prog.classes.items() if ci.module.name == 'units'),
+                       'what one quantity stores (e.g. a cache keyed by the unit spelling) is read by quantities of every other class: conversion factor and display '
+                       'text then depend on which quantities were used before')
 
 
 def r171_176(ctx, ut):
